@@ -498,8 +498,9 @@ def run_check(prop, harness_specs, tier, seed, explanation, level="other", budge
         "assumptions": sorted({a for _, _, h in hs for a in h.assumptions}),
         "wall_s": round(wall, 2), "violations": len(vio_lines),
     }
-    os.makedirs(os.path.join(VERIF, "evidence"), exist_ok=True)
-    json.dump(ev, open(os.path.join(VERIF, "evidence", f"{prop}.json"), "w"), indent=1, default=str)
+    evdir = os.environ.get("VERIF_EVIDENCE_DIR", os.path.join(VERIF, "evidence"))   # override: development aid
+    os.makedirs(evdir, exist_ok=True)
+    json.dump(ev, open(os.path.join(evdir, f"{prop}.json"), "w"), indent=1, default=str)
 
     print(f"[{prop}/{tier}] cases={cov['cases']}/{cov['cases_total']} paths={cov['evaluations']} "
           f"nontrivial={cov['distinct_nontrivial']} queries={cov['queries']} solver_s={cov['solver_s']} "
